@@ -4,7 +4,7 @@
 package absnfs
 
 //@ func AbsfsNFS.GetAttr
-//@ prop C12 C04 C15
+//@ prop C12 C04 C15:safety
 //@ requires s != nil && acInv(s.attrCache) && curTuning(s) != nil
 //@ ensures [cache-inv] acInv(s.attrCache) && s.attrCache == old(s.attrCache)
 //@ ensures [attrs-or-error] isnil(result1) ==> result0 != nil
